@@ -196,6 +196,11 @@ def evaluate(case) -> Verdict:
         v.fail(f"render:step-budget:{case['edge']}:{mode}", f"{desc}: no result within {RENDER_BUDGET} line events")
     elif o[0] == "crash":
         v.fail(f"render:crash:{o[1]}:{case['edge']}", f"{desc}: {o[1]} at {o[2]}")
+    elif o[0] == "liquid" and o[1] == "BlockNestingError":
+        # the nest itself is deeper than block_nesting_limit allows (a liquid tag's inner block counts too):
+        # outside the property's domain ("at any block depth permitted by the nesting limit")
+        v.labels.append("family:over-the-nesting-limit")
+        return v
     elif o[0] == "liquid":
         err = o[2]
         if mode != "strict":
